@@ -160,7 +160,7 @@ NTOP = 7
 def _census(n0, n1, n2, m0, reopen, topsel, boost):
     n1, m0, topsel = pick(n1, 0, 3), pick(m0, 0, 3), pick(topsel, 0, NTOP)
     if THOROUGH:
-        n2, reopen, boost = pick(n2, 0, 3), pick(reopen, 0, 2), pick(boost, 0, 2)
+        n2, reopen, boost = pick(n2, 0, 3), pick(reopen, 0, 2), (n1 + topsel) % 2
     else:
         n2, reopen, boost = (n0 + n1 + topsel) % 3, (n0 + m0 + topsel) % 2, (n1 + topsel) % 2
     with concrete():
@@ -200,12 +200,32 @@ def c03_census_ab(n1: int, n2: int, m0: int, reopen: int, topsel: int, boost: in
     return _census(2, n1, n2, m0, reopen, topsel, boost)
 
 
+def c03_script_ignore(top: int, ign: int, boost: int) -> bool:
+    """
+    scripts/pybind_wrap.py: for every --ignore form (absent, empty, one, two, a template instantiation whose C++
+    name contains a comma) and every --top_module_namespaces value, the generated module is what the API gives
+    for the same ignore list (nothing ignored is exposed, nothing else is dropped).
+    pre: 0 <= top < 5 and 0 <= ign < 5 and 0 <= boost <= 1
+    post: _
+    """
+    from harness import c16
+    top, ign, boost = pick(top, 0, 5), pick(ign, 0, 5), pick(boost, 0, 2)
+    with concrete():
+        ok = c16.check_scripts(0, top, ign, boost, 0)
+        if not ok:
+            global LAST_FAILURE
+            LAST_FAILURE = c16.LAST_FAILURE
+    reached({"top": c16.TOPS[top], "ignore": c16.IGN[ign]})
+    return ok
+
+
 def conds(tier):
     q = tier == "quick"
     t = (lambda x, y: x) if q else (lambda x, y: y)
     b = "N0 fixed; N1, sibling from a 3-name pool x 7 top-namespace choices%s" % (
         " x third level x re-opened x serialization" if not q else "; third level / re-open / hollow / serialization derived")
-    return [
+    return [xh.Cond("harness.c03_census", "c03_script_ignore", t(200, 600), kind="shape-bounded", examples=["top=1, ign=4, boost=0", "top=0, ign=0, boost=1"],
+                    bounds="5 --top_module_namespaces values x 5 --ignore forms x serialization")] + [
         xh.Cond("harness.c03_census", f, t(420, 3600), kind="shape-bounded", path_timeout=90, examples=ex, bounds=b)
         for f, ex in (("c03_census_a", ["n1=0, n2=0, m0=1, reopen=1, topsel=2, boost=0", "n1=2, n2=0, m0=1, reopen=0, topsel=0, boost=0"]),
                       ("c03_census_b", ["n1=2, n2=0, m0=1, reopen=0, topsel=6, boost=0"]),
